@@ -322,6 +322,19 @@ def _ri_next(m, st, callee, args, t):
     return some(lo)
 
 
+@model("core::iter::range::<impl core::iter::traits::iterator::Iterator for core::ops::range::Range<A>>::next")
+def _r_next(m, st, callee, args, t):
+    """`for i in a..b` over a concrete half-open range."""
+    r = deref(m, st, args[0])
+    if not (isinstance(r, Adt) and len(r.fields) == 2 and all(isinstance(x, I) for x in r.fields)):
+        return None
+    lo, hi = r.fields
+    if lo.v >= hi.v:
+        return none()
+    m.store(st, args[0].loc, Adt(r.ty, 0, (I(lo.v + 1, lo.ty), hi)))
+    return some(lo)
+
+
 @model("<I as core::iter::traits::collect::IntoIterator>::into_iter")
 def _into_iter(m, st, callee, args, t):
     return args[0]
@@ -979,6 +992,23 @@ def _iter_rev(m, st, callee, args, t):
 @model("<core::iter::adapters::rev::Rev<I> as core::iter::traits::iterator::Iterator>::next")
 def _rev_next(m, st, callee, args, t):
     return _next_generic(m, st, callee, args, t)
+
+
+@model("<core::str::iter::Chars<'a> as core::iter::traits::double_ended::DoubleEndedIterator>::next_back", "<core::str::iter::CharIndices<'a> as core::iter::traits::double_ended::DoubleEndedIterator>::next_back")
+def _chars_next_back(m, st, callee, args, t):
+    h = getattr(m.world, "iter_next_back", None)
+    if h is None:
+        return None
+    ref, it = _innermost_ref(m, st, args[0])
+    return h(m, st, ref, it)
+
+
+@model("core::str::<impl str>::split_once", "core::str::<impl str>::rsplit_once")
+def _split_once(m, st, callee, args, t):
+    h = getattr(m.world, "str_split_once", None)
+    if h is None:
+        return None
+    return h(m, st, _content(m, st, args[0]), args[1], callee["name"])
 
 
 @model("core::str::<impl str>::split_at")
